@@ -98,8 +98,19 @@ class Flow:
 
         for n in walk_no_nested(fn_node):
             if isinstance(n, ast.Assign):
+                # a = b[k] = <fresh container>: b[k] holds the object `a`
+                # names (later stores through `a` are stores into b[k])
+                alias = None
+                if len(n.targets) > 1 and isinstance(
+                        n.value, (ast.Dict, ast.List, ast.Set, ast.Call)):
+                    names = [t for t in n.targets if isinstance(t, ast.Name)]
+                    if len(names) == 1:
+                        alias = names[0]
                 for t in n.targets:
-                    bind_target(t, 'value', n.value)
+                    if alias is not None and isinstance(t, ast.Subscript):
+                        bind_target(t, 'value', alias)
+                    else:
+                        bind_target(t, 'value', n.value)
             elif isinstance(n, ast.AnnAssign) and n.value is not None:
                 bind_target(n.target, 'value', n.value)
             elif isinstance(n, ast.AugAssign):
@@ -201,7 +212,7 @@ class Flow:
             if c is not None:
                 it, idx = c
                 return self.iter_atoms(it, idx, fn, bind, depth, _seen)
-            return self._name_atoms(e.id, fn, bind, depth, _seen)
+            return self._name_atoms(e.id, fn, bind, depth, _seen, e)
         if isinstance(e, (ast.Attribute, ast.Subscript)):
             if isinstance(e, ast.Subscript) and isinstance(
                     e.slice, ast.Constant) and isinstance(
@@ -325,13 +336,41 @@ class Flow:
             if isinstance(p, (ast.For, ast.AsyncFor)) and any(
                     n is x for x in p.body):
                 r = self._target_index(p.target, name_node.id)
-                if r is not None and not self._rebound_in(
-                        p.body, name_node.id):
+                if r is not None and (not self._rebound_in(
+                        p.body, name_node.id) or self._before_rebinding(
+                            p.body, name_node)):
                     return p.iter, (None if r == () else r[0])
             if isinstance(p, (ast.FunctionDef, ast.AsyncFunctionDef,
                               ast.Lambda)):
                 return None
             n = p
+
+    def _before_rebinding(self, body, use):
+        """The loop variable is re-assigned in the body, but this use comes
+        first: it is lexically before the first re-assignment, or inside
+        its right-hand side (`x = f(x)`), outside any nested loop."""
+        stores = [x for st in body for x in ast.walk(st)
+                  if isinstance(x, ast.Name) and x.id == use.id and
+                  isinstance(x.ctx, (ast.Store, ast.Del))]
+        if not stores:
+            return True
+        first = min(stores, key=lambda x: (x.lineno, x.col_offset))
+        st = first
+        while st is not None and not isinstance(st, ast.stmt):
+            st = getattr(st, '_parent', None)
+        n = use
+        while n is not None and n not in body:
+            n = getattr(n, '_parent', None)
+            if isinstance(n, (ast.For, ast.While)) and n not in body and \
+                    any(n is y for b_ in body for y in ast.walk(b_)):
+                return False
+        if st is None:
+            return False
+        if isinstance(st, (ast.Assign, ast.AnnAssign, ast.AugAssign)) and \
+                st.value is not None and any(
+                    x is use for x in ast.walk(st.value)):
+            return not isinstance(st, ast.AugAssign)
+        return (use.lineno, use.col_offset) < (st.lineno, st.col_offset)
 
     def _rebound_in(self, body, name):
         for st in body:
@@ -580,7 +619,7 @@ class Flow:
         if bind is None:
             return None
         return frozenset((k, frozenset(v)) for k, v in bind.items()
-                         if k != '#site')
+                         if not k.startswith('#'))
 
     def _locals_table(self, sc, bind, depth):
         """name -> atoms for every local of function `sc` (under a binding
@@ -750,10 +789,63 @@ class Flow:
                 else None
         return self._modfunc[key]
 
-    def _name_atoms(self, name, fn, bind, depth, _seen):
+    def _param_still_original(self, use, fn):
+        """A parameter that is re-assigned later in the function still holds
+        the caller's value at this use: every re-assignment comes lexically
+        after it and no loop encloses both."""
+        name = use.id
+        cache = self.__dict__.setdefault('_pso', {})
+        key = (id(fn.node), name)
+        if key not in cache:
+            stores, bad = [], False
+            for x in walk_no_nested(fn.node):
+                if isinstance(x, ast.Name) and x.id == name and isinstance(
+                        x.ctx, (ast.Store, ast.Del)):
+                    stores.append(x)
+                elif isinstance(x, ast.Call) and isinstance(
+                        x.func, ast.Attribute) and isinstance(
+                            x.func.value, ast.Name) and \
+                        x.func.value.id == name and \
+                        x.func.attr in MUTATORS_ELEM | MUTATORS_SEQ:
+                    bad = True
+                elif isinstance(x, ast.Subscript) and isinstance(
+                        x.ctx, ast.Store) and isinstance(
+                            x.value, ast.Name) and x.value.id == name:
+                    bad = True
+            cache[key] = (stores, bad)
+        stores, bad = cache[key]
+        if not stores or bad:
+            return False
+        pos = (use.lineno, use.col_offset)
+        for st in stores:
+            stmt = st
+            while stmt is not None and not isinstance(stmt, ast.stmt):
+                stmt = getattr(stmt, '_parent', None)
+            if stmt is None or (stmt.lineno, stmt.col_offset) <= pos:
+                # in the right-hand side of the re-assignment itself
+                if stmt is not None and isinstance(
+                        stmt, (ast.Assign, ast.AnnAssign)) and \
+                        stmt.value is not None and any(
+                            x is use for x in ast.walk(stmt.value)):
+                    continue
+                return False
+            n = stmt
+            while n is not None and n is not fn.node:
+                n = getattr(n, '_parent', None)
+                if isinstance(n, (ast.For, ast.While, ast.AsyncFor)) and any(
+                        x is use for x in ast.walk(n)):
+                    return False
+        return True
+
+    def _name_atoms(self, name, fn, bind, depth, _seen, node=None):
         out = set()
         if fn is None:
             return {name}
+        if node is not None and name in Q.params(fn.node) and self.defs(
+                fn.node).get(name) and self._param_still_original(node, fn):
+            if bind is not None and name in bind:
+                return set(bind[name])
+            return {'param:' + name}
         fv = self._func_value(name, fn)
         if fv is not None:
             # a function used as a value stands for what it returns (like a
@@ -874,7 +966,7 @@ class Flow:
         return self.atoms(it, fn, bind, depth, _seen)
 
     # -- records (dict-shaped values) ---------------------------------------
-    def const_keys(self, k, fn, bind=None, _seen=None):
+    def const_keys(self, k, fn, bind=None, _seen=None, partial=False):
         """Constant values a key expression can take (a literal, or a loop
         variable over a literal tuple); None when unknown."""
         if isinstance(k, ast.Constant):
@@ -883,8 +975,8 @@ class Flow:
                 and k.attr in ('name', 'value') and fn is not None:
             return None
         if isinstance(k, ast.BinOp) and isinstance(k.op, ast.Add):
-            l = self.const_keys(k.left, fn, bind, _seen)
-            r = self.const_keys(k.right, fn, bind, _seen)
+            l = self.const_keys(k.left, fn, bind, _seen, partial)
+            r = self.const_keys(k.right, fn, bind, _seen, partial)
             if l is not None and r is not None and len(l) * len(r) <= 16 \
                     and all(isinstance(x, str) for x in l + r):
                 return [a + b for a in l for b in r]
@@ -906,6 +998,8 @@ class Flow:
                                     row, (ast.Tuple, ast.List)) and c[1] < \
                                     len(row.elts) else None
                             if not isinstance(cell, ast.Constant):
+                                if partial:
+                                    continue   # only the named entries
                                 cells = None
                                 break
                             cells.append(cell.value)
@@ -1341,7 +1435,7 @@ class Flow:
                              isinstance(g.args[0], ast.Name) and
                              g.args[0].id in ('self', 'cls')):
             return []
-        ks = self.const_keys(g.args[1], fn, bind)
+        ks = self.const_keys(g.args[1], fn, bind, partial=True)
         ci = fn.cls
         if not ks or ci is None:
             return []
@@ -1415,6 +1509,14 @@ class Flow:
                     o, meth = ci.find_method(f.attr)
                 if meth is not None:
                     return meth._func
+        if isinstance(f, ast.Attribute) and isinstance(
+                f.value, ast.Call) and isinstance(
+                    f.value.func, ast.Name) and f.value.func.id == 'cls' \
+                and fn.cls is not None:
+            # cls().method(...) in a classmethod
+            o, meth = fn.cls.find_method(f.attr)
+            if meth is not None and getattr(meth, '_func', None):
+                return meth._func
         return None
 
     def _local_instance_class(self, name, fn):
